@@ -445,6 +445,8 @@ func (c *c07) sweep(j *sworld.Judge) int64 {
 		stride = 1
 	}
 	sigs := map[string]bool{}
+	seenSig := map[string]int{}
+	often := false
 	sinceRebuild := 0
 	for _, b := range bases(c.w.PeerIP(0), c.gnb(), target, txs) {
 		muts := structural(b.b, c.seidClasses())
@@ -492,10 +494,15 @@ func (c *c07) sweep(j *sworld.Judge) int64 {
 						sigs[v.Sig] = true
 						keep = append(keep, v)
 					}
+					seenSig[v.Sig]++
+					if seenSig[v.Sig] >= 20 {
+						often = true
+					}
 				}
 				j.Viols = keep
 			}
-			if len(sigs) >= 6 {
+			if len(sigs) >= 6 || often {
+				// enough: the tree is broken (every further crash costs a rebuild of the state)
 				return c.nMut - start
 			}
 		}
